@@ -7,6 +7,15 @@
 // twice on fresh VMs inside one binary: compiled (RegisterCompiledFile + RunCompiledFile) and
 // interpreted (ParseFile + run). Stdout, the uncaught-error outcome and the exit status must be
 // equal. A file the generator rejects must be rejected with a reported compile error.
+//
+// history.go adds the second axis: the OUTPUT DIRECTORY as state. Every history of compiles into one
+// reused directory (sources edited with older / unchanged / equal / newer mtimes, files added and
+// deleted, --pkg changed, a parse error introduced and repaired, a directory left by the old
+// single-file layout) up to a depth bound must end in a directory that builds and behaves like the
+// interpreted final sources; a fresh compile of the final sources is the byte-level reference that
+// collapses the histories to a few dozen distinct directories, so one more `go build` decides them
+// all. The same machinery enumerates every pair of library file names of a name alphabet (names
+// that differ only in case, _ / - / camel case or non-identifier characters).
 package main
 
 import (
